@@ -53,6 +53,8 @@ structure Holds (cfg : Cfg) : Prop where
         ∀ x ∈ reg, matchesPat n x.pat = true → ¬ MoreSpecific x.pat e.pat)
   /-- a second `settings.New` on the same root resolves every name to the same entry -/
   restart : ∀ reg n e, WF reg → (ResolvesTo cfg (reload cfg reg) n e ↔ ResolvesTo cfg reg n e)
+  /-- …also when the last save of settings.json failed part-way: what was persisted before still applies -/
+  crashSafe : ∀ reg n e, WF reg → (ResolvesTo cfg (afterTornSave cfg reg) n e ↔ ResolvesTo cfg reg n e)
   /-- after ANY history of registrations, re-registrations and deregistrations (from any reachable
       registry) the entry stored for every key is its LAST registration, nothing after a deregistration -/
   registered : ∀ reg h, WF reg → (∀ op ∈ h, op.pat.NoSlash) →
@@ -117,10 +119,11 @@ theorem resolve_restart (cfg : Cfg) (hp : cfg.persistsAll = true) (reg : List En
 /-- C21 holds for every reachable registry when the lookup ranks all matches strictly and
     every field is persisted. -/
 theorem holds_ranked (cfg : Cfg) (hg : cfg.goodRank = true) (hp : cfg.persistsAll = true)
-    (hc : cfg.unchangedChecksType = true) : Holds cfg :=
+    (hc : cfg.unchangedChecksType = true) (ha : cfg.saveAtomic = true) : Holds cfg :=
   ⟨fun reg reg' n hw p => resolve_perm cfg hg reg reg' n hw p,
    fun reg n e hw h => resolve_most_specific cfg hg reg n e hw h,
    fun reg n e hw => resolve_restart cfg hp reg n e hw,
+   fun reg n e hw => by simp only [afterTornSave, ha, if_true]; exact resolve_restart cfg hp reg n e hw,
    fun reg h hw hns => (registry_follows_history cfg hc h reg hw hns).1⟩
 
 theorem entryFor_nil : entryFor [] = fun _ => none := funext fun _ => rfl
@@ -155,7 +158,7 @@ theorem resolves_to_last_registration (cfg : Cfg) (hg : cfg.goodRank = true) (hc
 def bA : Bytes := [0x61]
 def bB : Bytes := [0x62]
 def bC : Bytes := [0x63]
-def fixedCfg : Cfg := ⟨.ranked, .gt, 2, 1, true, true, true, true, true⟩
+def fixedCfg : Cfg := ⟨.ranked, .gt, 2, 1, true, true, true, true, true, true⟩
 
 /-- exact, swamp-wildcard, realm-wildcard and double-wildcard patterns of sanctuary "a" -/
 def overlapping : List Entry :=
@@ -283,6 +286,31 @@ theorem refutes_dropped_field (cfg : Cfg) (hg : cfg.goodRank = true) (hp : cfg.p
   · exact key ⟨⟨bA, bB, bC⟩, ⟨false, 7, 3, 9⟩⟩ (by decide) (by decide) (by simp [ofPM, toPM, h])
   · exact key ⟨⟨bA, bB, bC⟩, ⟨false, 7, 3, 9⟩⟩ (by decide) (by decide) (by simp [ofPM, toPM, h])
 
+/-! ### settings.json rewritten in place -/
+
+/-- one registered in-memory pattern; the next save fails part-way; after the restart the pattern is gone and
+    a/b/c resolves to the default (persistent) settings -/
+theorem torn_save_witness (cfg : Cfg) (h : cfg.saveAtomic = false) :
+    afterTornSave cfg restartRegMem = [] ∧
+    lookupIn cfg (afterTornSave cfg restartRegMem) ⟨bA, bB, bC⟩ = defaultEntry ⟨bA, bB, bC⟩ := by
+  simp only [afterTornSave, h, Bool.false_eq_true, if_false, true_and]
+  simp only [lookupIn]
+  split <;> simp [rankedLoop]
+
+theorem refutes_torn_save (cfg : Cfg) (hg : cfg.goodRank = true) (h : cfg.saveAtomic = false) : ¬ Holds cfg := by
+  intro hh
+  let e : Entry := ⟨⟨bA, bB, bC⟩, ⟨true, 7, 0, 0⟩⟩
+  have hw : WF [e] := wf_single e (by decide)
+  have r1 : ResolvesTo cfg [e] e.pat e := ⟨[e], List.Perm.refl _, lookupIn_single cfg hg e⟩
+  obtain ⟨o, po, ho⟩ := (hh.crashSafe [e] e.pat e hw).mpr r1
+  simp only [afterTornSave, h, Bool.false_eq_true, if_false] at po
+  have : o = [] := List.perm_nil.mp po
+  subst this
+  have hd := (torn_save_witness cfg h).2
+  simp only [afterTornSave, h, Bool.false_eq_true, if_false, restartRegMem] at hd
+  rw [show e.pat = ⟨bA, bB, bC⟩ from rfl, hd] at ho
+  exact absurd ho (by decide)
+
 /-! ### the re-registration quirk of the original RegisterPattern -/
 
 /-- a/x/p is registered in-memory (idle 4) and then persistent with idle 4, interval 0, size 0 -/
@@ -325,27 +353,30 @@ structure Facts where
   persistsWi : Tri
   persistsSize : Tri
   unchangedChecksType : Tri   -- RegisterPattern's early return also requires the stored entry to be persistent
+  saveAtomic : Tri            -- SaveSettingsToFilesystem writes a temp file and renames it over settings.json
   deriving Repr
 
 def cfgOf (f : Facts) : Cfg :=
   ⟨f.lookup, f.cmp, (f.wRealm.getD 0 : Nat), (f.wSwamp.getD 0 : Nat),
-   f.persistsInMem.isYes, f.persistsIdle.isYes, f.persistsWi.isYes, f.persistsSize.isYes, f.unchangedChecksType.isYes⟩
+   f.persistsInMem.isYes, f.persistsIdle.isYes, f.persistsWi.isYes, f.persistsSize.isYes, f.unchangedChecksType.isYes, f.saveAtomic.isYes⟩
 
 def persistKnown (f : Facts) : Bool :=
   f.persistsInMem != .unknown && f.persistsIdle != .unknown && f.persistsWi != .unknown && f.persistsSize != .unknown &&
-  f.unchangedChecksType != .unknown
+  f.unchangedChecksType != .unknown && f.saveAtomic != .unknown
 
 def classify (f : Facts) : Verdict :=
   if !persistKnown f then .undetermined "a persisted field of the pattern model was not recognised"
   else match f.lookup with
   | .iteratesMap =>
     .violated (["C21-map-order-lookup"] ++ (if (cfgOf f).persistsAll then [] else ["C21-restart-loses-field"]) ++
-      (if (cfgOf f).unchangedChecksType then [] else ["C21-reregistration-ignored"]))
+      (if (cfgOf f).unchangedChecksType then [] else ["C21-reregistration-ignored"]) ++
+      (if (cfgOf f).saveAtomic then [] else ["C21-settings-save-not-atomic"]))
   | .ranked =>
     if (cfgOf f).goodRank then
-      (if (cfgOf f).persistsAll && (cfgOf f).unchangedChecksType then .holds
+      (if (cfgOf f).persistsAll && (cfgOf f).unchangedChecksType && (cfgOf f).saveAtomic then .holds
        else .violated ((if (cfgOf f).persistsAll then [] else ["C21-restart-loses-field"]) ++
-                       (if (cfgOf f).unchangedChecksType then [] else ["C21-reregistration-ignored"])))
+                       (if (cfgOf f).unchangedChecksType then [] else ["C21-reregistration-ignored"]) ++
+      (if (cfgOf f).saveAtomic then [] else ["C21-settings-save-not-atomic"])))
     else .undetermined "the ranking in GetBySwampName is not a strict most-specific order"
   | .unknown => .undetermined "lookup loop of GetBySwampName not recognised"
 
@@ -368,13 +399,16 @@ theorem classify_sound (f : Facts) :
         split
         · rename_i hp
           simp only [Bool.and_eq_true] at hp
-          exact holds_ranked _ hg hp.1 hp.2
+          exact holds_ranked _ hg hp.1.1 hp.1.2 hp.2
         · rename_i hp
           refine ⟨?_, fun h => by simp at h⟩
           simp only [Bool.and_eq_true, not_and, Bool.not_eq_true] at hp
           cases h1 : (cfgOf f).persistsAll with
           | false => exact refutes_dropped_field _ hg h1
-          | true => exact refutes_reregistration _ (hp h1)
+          | true =>
+            cases h2 : (cfgOf f).unchangedChecksType with
+            | false => exact refutes_reregistration _ h2
+            | true => exact refutes_torn_save _ hg (hp ⟨h1, h2⟩)
       · trivial
     | unknown => trivial
 
